@@ -80,6 +80,8 @@ def gen_plan(rng, tier="quick"):
         recipe["data"]["kind"] = rng.choice(["int_bumps", "random"])
     if op["m"].startswith("fit"):
         recipe["data"]["kind"] = "unimodal"
+        if rng.random() < 0.4:
+            recipe["data"]["edge_peaks"] = rng.choice([0.2, 0.5])
         if op["m"] == "fit_gaussian" and rng.random() < 0.7:
             op["kw"]["gw0"] = rng.choice([0.01, 0.02, 0.05])
     if op["m"].startswith("fit") and rng.random() < 0.35:
@@ -115,7 +117,10 @@ def gen_plan(rng, tier="quick"):
         chunks[k] = -1 if nblocks(k) <= 2 or sizes[k] <= 2 else -(-sizes[k] // 2)
     aux = rng.choice(["same", "same", "numpy", "own"])
     aux_chunks = {k: _chunk_choice(rng, n) for k, n in sizes.items() if k not in ("freq", "dir")} if aux == "own" else None
-    strategy = rng.choices(["rw", "pct", "solo"], [80, 17, 3])[0]
+    # non-index coordinates (lon/lat of sites) may be chunked differently from the spectra, e.g. when a
+    # station file is opened with per-variable chunks
+    coords = rng.choice(["same", "same", "same", "single", "numpy"]) if any(k == "site" for k, _ in dims) else "same"
+    strategy = rng.choices(["rw", "pct", "solo", "lockstep"], [50, 12, 3, 35])[0]
     cfg = {
         "K": rng.choice([1, 2, 2, 2, 2, 3, 3, 4, 4, 8, 16]),
         "chunksize": rng.choice([1, 1, 1, 2, 3]),
@@ -128,13 +133,13 @@ def gen_plan(rng, tier="quick"):
         "d": rng.randint(1, 3),
         "expected_points": rng.choice([200, 1000, 5000]),
     }
-    return {"engine": NAME, "recipe": recipe, "op": op, "chunks": chunks, "aux": aux, "aux_chunks": aux_chunks, "cfg": cfg}
+    return {"engine": NAME, "recipe": recipe, "op": op, "chunks": chunks, "aux": aux, "aux_chunks": aux_chunks, "coords": coords, "cfg": cfg}
 
 
 def shape(plan):
     ck = ",".join(f"{k}:{'w' if v == -1 else (v if isinstance(v, int) else 'u')}" for k, v in sorted(plan["chunks"].items()))
     c = plan["cfg"]
-    return f"{D.describe(plan['recipe'])}|{O.op_label(plan['op'])}|{ck}|aux={plan['aux']}|K{c['K']}cs{c['chunksize']}{c['strategy']}"
+    return f"{D.describe(plan['recipe'])}|{O.op_label(plan['op'])}|{ck}|aux={plan['aux']}|co={plan.get('coords', 'same')}|K{c['K']}cs{c['chunksize']}{c['strategy']}"
 
 
 # ---------------------------------------------------------------------------------------
@@ -168,6 +173,11 @@ def apply_chunks(ds, plan):
             dsc[v] = ds[v]
         elif aux == "own":
             dsc[v] = ds[v].chunk(_norm_chunks(plan["aux_chunks"] or {}, dict(ds[v].sizes)))
+    cmode = plan.get("coords", "same")
+    if cmode != "same":
+        for c in ("lon", "lat"):
+            if c in ds.coords and c not in ds.dims:
+                dsc = dsc.assign_coords({c: ds[c].chunk(-1) if cmode == "single" else ds[c]})
     return dsc
 
 
@@ -265,7 +275,7 @@ def execute(arg):
         out["ref_error"] = f"{type(exc).__name__}: {exc}"[:300]
         return finish()
     cdims = "+".join(chunked_dims(plan)) or "none"
-    cause = f"chunked:{cdims}" + ("" if plan["aux"] == "same" else f";aux:{plan['aux']}")
+    cause = f"chunked:{cdims}" + ("" if plan["aux"] == "same" else f";aux:{plan['aux']}") + ("" if plan.get("coords", "same") == "same" else f";coords:{plan['coords']}")
     # ---- clause 1: building the lazy result ------------------------------------------------
     try:
         dsc = apply_chunks(ds, plan)
@@ -387,6 +397,8 @@ def simplify(plan):
             variant(lambda p, k=k: p["chunks"].__setitem__(k, 1))
     if plan["aux"] != "same":
         variant(lambda p: p.update(aux="same", aux_chunks=None))
+    if plan.get("coords", "same") != "same":
+        variant(lambda p: p.update(coords="same"))
     for key, val in (("nf", 3), ("nf", 5), ("nd", 4), ("nd", 8)):
         if r.get(key, 0) > val:
             def setk(p, key=key, val=val):
@@ -423,7 +435,7 @@ def simplify(plan):
 
 
 def sample(plan):
-    return {"dataset": D.describe(plan["recipe"]), "op": O.op_label(plan["op"]), "chunks": plan["chunks"], "aux": plan["aux"], "cfg": plan["cfg"]}
+    return {"dataset": D.describe(plan["recipe"]), "op": O.op_label(plan["op"]), "chunks": plan["chunks"], "aux": plan["aux"], "coords": plan.get("coords", "same"), "cfg": plan["cfg"]}
 
 
 NONTRIVIAL_RULE = (
@@ -431,3 +443,18 @@ NONTRIVIAL_RULE = (
     ">=2 tasks were in flight at once and >=1 pre-emption happened inside a running task, or >=1 injected fault "
     "(duplicate execution, stall, pre-emption in C) fired; distinct = distinct (plan-shape digest, schedule-tape digest) pairs"
 )
+
+COMPONENTS = {
+    "real": ["wavespectra (Python from the working tree, C extension rebuilt from the working tree)", "xarray", "numpy", "scipy",
+             "dask graph construction / optimisation / dask.order / dask.local.get_async scheduler loop / execute_task"],
+    "simulated": ["thread pool (SimPool via dask's pool= seam): one parked real thread per batch, baton decides who runs",
+                  "completion queue (dask.local.Queue -> SimQueue)", "pre-emption points: sys.monitoring LINE events in wavespectra code, C yield hook when the GIL is released",
+                  "uuid4 (counter based)", "numpy global RNG seed"],
+    "stubs": [],
+}
+ASSUMPTIONS = [
+    "PYTHONHASHSEED pinned to 0 (dask's submission order for large graphs depends on it); every run executes in a child forked from a zygote that only imported the libraries",
+    "interleaving is controlled at Python-line granularity inside wavespectra files and at the yield points of specpart.c (only when the calling thread has released the GIL); numpy/scipy/xarray internals run atomically under the baton",
+    "clause 2 tolerances: bit-exact for partitions/splits/to_energy; rtol 1e-9 (float64) for reductions that cross chunks; 1e-6 for cancellation-prone widths; 2e-3 for fits; a tolerance-class mismatch is discarded when a 1-ulp perturbation of the input moves the in-memory answer as much (conditioning guard)",
+]
+PROBES = ["sync_ok", "max_tasks_in_flight", "preempt_inside_task", "fault.duplicate", "fault.stall", "fault.preempt_py", "c_sites_gil_held", "rendezvous_met"]
